@@ -185,7 +185,10 @@ pub fn config_cell(_spec: &Value) -> Value {
             let port = free_port(false);
             let dir = format!("{}/c16bin", scratch_root());
             let _ = std::fs::create_dir_all(&dir);
-            let mut child = match std::process::Command::new(tftpd_path()).args(["-p", &port.to_string(), "-d", &dir, "--duplicate-packets", &n.to_string()]).stdout(std::process::Stdio::null()).stderr(std::process::Stdio::null()).spawn() {
+            let mut cmd = std::process::Command::new(tftpd_path());
+            cmd.args(["-p", &port.to_string(), "-d", &dir, "--duplicate-packets", &n.to_string()]).stdout(std::process::Stdio::null()).stderr(std::process::Stdio::null());
+            die_with_parent(&mut cmd);
+            let mut child = match cmd.spawn() {
                 Ok(ch) => ch,
                 Err(e) => {
                     c.machinery_errors.push(format!("spawn tftpd: {e}"));
